@@ -780,7 +780,8 @@ class EdgeQLSourceGenerator(codegen.SourceGenerator):
             ))
         elif (
             node.value.startswith('-')
-            and isinstance(node._parent, qlast.BinOp)  # type: ignore
+            and isinstance(
+                node._parent, (qlast.BinOp, qlast.Shape))  # type: ignore
         ):
             # the parser folds the sign into numeric constants;
             # '-2 ^ 2' would re-parse as '-(2 ^ 2)'
